@@ -166,6 +166,10 @@ func judgePatch(c *mon.Ctx, sub jd.Diff, targetText string, reading ref.Reading,
 	d := sub
 	if viaText {
 		text := sub.Render()
+		if c.R.Chance(0.3) {
+			text = strings.TrimSuffix(text, "\n") // as produced by d=$(jd a b)
+			c.Feature("text_without_final_newline")
+		}
 		rd, err := jd.ReadDiffString(text)
 		if err != nil {
 			return "the rendered sub-diff is not readable: " + err.Error(), "", map[string]any{"diff": text}
